@@ -16,6 +16,8 @@
 #include <time.h>
 #include <unistd.h>
 
+#include <string>
+
 namespace dsched {
 namespace {
 
@@ -110,6 +112,8 @@ struct Global {
   uint64_t steps, switches;
   int64_t vclock;  // ns since start
   uint64_t last_progress_step;
+  int64_t last_real_progress_vclock;
+  uint64_t timeouts_since_progress;
   VC sc;
   uint64_t wid_counter;
   size_t replay_pos;
@@ -196,6 +200,11 @@ uint16_t replay_next() {
 }
 
 void progress() { G.last_progress_step = G.steps; }
+// progress that is not merely a timer firing (value-changing write, wake-up, thread birth/death, lock hand-over)
+void real_progress() {
+  G.last_real_progress_vclock = G.vclock;
+  G.timeouts_since_progress = 0;
+}
 
 ////////////////////////////////////////////////////////////////////////////////
 // baton
@@ -212,6 +221,8 @@ void give_baton(Thread* t) {
 }
 
 void make_runnable(Thread* t, bool timed_out) {
+  if (timed_out) G.timeouts_since_progress++;
+  else real_progress();
   t->st = T_RUNNABLE;
   t->bk = B_NONE;
   t->timed_out = timed_out;
@@ -269,6 +280,13 @@ int pick(Thread* me, bool me_yields) {
       char buf[1024];
       describe_threads(buf, sizeof buf);
       finish(V_DEADLOCK, "deadlock", buf);
+    }
+    // pollers that only ever time out: nothing but timers has happened for a long virtual time
+    if (G.timeouts_since_progress > 300 && G.vclock - G.last_real_progress_vclock > 20000000000LL) {
+      char buf[1024];
+      describe_threads(buf, sizeof buf);
+      finish(G.P.livelock_is_violation ? V_LIVELOCK : V_INCONCLUSIVE, "livelock",
+             (std::string("only timers fired for 20 s of virtual time: ") + buf).c_str());
     }
     // livelock / clock jump: everybody runnable is spinning through yields
     bool all_spin = true;
@@ -411,6 +429,7 @@ void on_thread_exit(void* p) {
   t->vc.c[t->id]++;
   t->st = T_FINISHED;
   progress();
+  real_progress();
   for (int i = 0; i < G.nth; i++) {
     Thread* o = &G.th[i];
     if (o->st == T_BLOCKED && o->bk == B_JOIN && o->wait_addr == (uintptr_t)t->id) make_runnable(o, false);
@@ -762,6 +781,7 @@ void do_store(Thread* me, uintptr_t a, int size, uint64_t v, int mo) {
   me->load_streak = 0;
   me->spin = 0;
   progress();
+  real_progress();
 }
 
 // read-modify-write: reads the latest, op computes new value; returns old.
@@ -798,7 +818,7 @@ uint64_t do_rmw(Thread* me, uintptr_t a, int size, int mo, int fmo, Op op, bool*
     else rel.join(me->rel_fence);
     append_write(me, c, off, size, nv, rel);
     me->load_streak = 0;
-    if (nv != old) { me->spin = 0; progress(); }
+    if (nv != old) { me->spin = 0; progress(); real_progress(); }
   } else {
     // failed compare-exchange: a load with the failure order
     if (is_acq(fmo)) me->vc.join(acq);
@@ -839,6 +859,7 @@ void yield_point() { if (Thread* t = self()) sched_point_impl(t, true); }
 int64_t now_ns() { return G.vclock; }
 void advance_clock(int64_t ns) {
   if (ns > 0) G.vclock += ns;
+  real_progress();
   if (Thread* t = self()) sched_point_impl(t, false);
 }
 Stamp stamp() {
@@ -966,6 +987,8 @@ void run(const Params& p, const std::function<void()>& body) {
   G.nonce = 0;
   G.sc.clear();
   G.last_progress_step = 0;
+  G.last_real_progress_vclock = 0;
+  G.timeouts_since_progress = 0;
   g_quiet = false;
   Thread* t0 = &G.th[0];
   memset(t0, 0, sizeof *t0);
@@ -1019,6 +1042,11 @@ DS_RW(1) DS_RW(2) DS_RW(4) DS_RW(8) DS_RW(16)
 void __tsan_read_range(void*, unsigned long) {}
 void __tsan_write_range(void*, unsigned long) {}
 
+// A schedule point right after a write: lets another thread run between a
+// publishing / releasing write and the plain accesses that follow it in program
+// order ("released, then still read" windows).
+static inline void post_point(dsched::Thread* me) { sched_point_impl(me, false); }
+
 void __tsan_atomic_thread_fence(int mo) {
   Thread* me = self();
   if (!me) { __atomic_thread_fence(__ATOMIC_SEQ_CST); return; }
@@ -1041,13 +1069,16 @@ void __tsan_atomic_signal_fence(int) {}
     if (!me) { __atomic_store_n(a, v, __ATOMIC_SEQ_CST); return; }                                        \
     sched_point_impl(me, false);                                                                          \
     do_store(me, (uintptr_t)a, sizeof(T), (uint64_t)v, mo);                                               \
+    post_point(me);                                                                                       \
   }                                                                                                       \
   T __tsan_atomic##N##_exchange(volatile T* a, T v, int mo) {                                             \
     Thread* me = self();                                                                                  \
     if (!me) return __atomic_exchange_n(a, v, __ATOMIC_SEQ_CST);                                          \
     sched_point_impl(me, false);                                                                          \
     bool w;                                                                                               \
-    return (T)do_rmw(me, (uintptr_t)a, sizeof(T), mo, mo, [&](uint64_t, uint64_t* n) { *n = (uint64_t)v; return true; }, &w); \
+    T old = (T)do_rmw(me, (uintptr_t)a, sizeof(T), mo, mo, [&](uint64_t, uint64_t* n) { *n = (uint64_t)v; return true; }, &w); \
+    post_point(me);                                                                                       \
+    return old;                                                                                           \
   }                                                                                                       \
   T __tsan_atomic##N##_compare_exchange_val(volatile T* a, T c, T v, int mo, int fmo) {                   \
     Thread* me = self();                                                                                  \
@@ -1056,6 +1087,7 @@ void __tsan_atomic_signal_fence(int) {}
     bool w;                                                                                               \
     T old = (T)do_rmw(me, (uintptr_t)a, sizeof(T), mo, fmo,                                               \
                       [&](uint64_t o, uint64_t* n) { *n = (uint64_t)v; return (T)o == c; }, &w);          \
+    if (w) post_point(me);                                                                                \
     return old;                                                                                           \
   }                                                                                                       \
   int __tsan_atomic##N##_compare_exchange_strong(volatile T* a, T* c, T v, int mo, int fmo) {             \
@@ -1074,8 +1106,10 @@ void __tsan_atomic_signal_fence(int) {}
     if (!me) return BUILTIN(a, v, __ATOMIC_SEQ_CST);                                                      \
     sched_point_impl(me, false);                                                                          \
     bool w;                                                                                               \
-    return (T)do_rmw(me, (uintptr_t)a, sizeof(T), mo, mo,                                                 \
-                     [&](uint64_t o64, uint64_t* n) { T o = (T)o64; *n = (uint64_t)(T)(EXPR); return true; }, &w); \
+    T old = (T)do_rmw(me, (uintptr_t)a, sizeof(T), mo, mo,                                                \
+                      [&](uint64_t o64, uint64_t* n) { T o = (T)o64; *n = (uint64_t)(T)(EXPR); return true; }, &w); \
+    post_point(me);                                                                                       \
+    return old;                                                                                           \
   }
 
 #define DS_ALL(N, T)                                        \
@@ -1204,6 +1238,7 @@ int pthread_create(pthread_t* out, const pthread_attr_t* attr, void* (*fn)(void*
   }
   *out = t->pth;
   progress();
+  real_progress();
   sched_point_impl(me, false);
   return 0;
 }
